@@ -731,6 +731,7 @@ def check(ctx: Ctx):
     from . import c03, c05
 
     c03._guarded(ctx, "R05.1", c05.check_dispatch)
+    c03._guarded(ctx, "R05.2", c05.check_library_calls)  # ... and the count is the library's own, on every class of input
     # "number of predicted / reference instances" in the final result are the pair's own counts
     # (wiring of panoptic_evaluate, R01.2)
     from . import c01
